@@ -186,6 +186,7 @@ int FidelityMain(uint64_t seed, uint64_t first, uint64_t count, const std::strin
       // (sim) build
       InvPlan p; p.j = 1; p.k = 1; p.stream = 100 + (int)so.size(); p.targets = st.targets;
       InvRecord r = w.RunInvocation(p);
+      if (getenv("SIM_FID_DEBUG")) HPrintf("--- sim build %zu\n%s%s", so.size(), r.res.err.c_str(), r.res.out.c_str());
       BuildObs a;
       a.exit_code = r.res.end == ProcResult::kExit ? r.res.exit_code : -1;
       for (auto& x : r.spawns) a.order += std::to_string(x.stmt) + ",";
